@@ -57,6 +57,18 @@ TRUSTED = [
 ]
 ASSUMPTIONS = ["tree-shaped inputs (no shared or cyclic containers)", "threshold_to_diff_deeper at its default 0.33 or 0"]
 
+# second tie between model and code (DESIGN.md 4.5, coq/theories/HashDiff/NOTES_srctie.md): the option forwarding
+# DeepDiff -> DeepHash and the hashtable of the order-ignoring list diff are regenerated from /repo's current source on
+# every run (harness/translate/hashparams.py) and proved equal to the hand model (coq/srctie/HashDiffGenEquiv.v)
+SOURCE_TIES = [{
+    "name": "hashparams", "translator": "hashparams", "gen_module": "HashDiffGen", "equiv": ["HashDiffGenEquiv"],
+    "needs": ["HashDiff.HashDiffSrcSpec", "HashDiff.HashDiffProofsLift", "HashDiff.HashDiffProofsKeys"],
+    "sources": ["deepdiff/diff.py", "deepdiff/deephash.py", "deepdiff/base.py"],
+    "fragment": "diff.py: DEEPHASH_PARAM_KEYS, DeepDiff.__init__ (filling of self._parameters / deephash_parameters), _get_deephash_params, "
+                "_add_hash, _create_hashtable, _diff_iterable_with_deephash up to the pairing heuristic; deephash.py: DeepHash.__init__ up to "
+                "self._hash; base.py: get_significant_digits",
+}]
+
 HEADER = ("From DD Require Import Base.PyStr Base.Value Diff.Tree Diff.DiffModel Hash.HashModel DiffIO.DiffIOModel "
           "DiffIO.DiffIOShow Options.OptModel HashDiff.HashDiffModel HashDiff.HashDiffProofsLift HashDiff.HashDiffProofsKeys HashDiff.HashDiffShow.\nLocal Open Scope Z_scope.")
 
@@ -119,11 +131,13 @@ def name_of(sp):
         out.append("tz%d%s" % (sp["tz"], "zi" if sp.get("tzshape") == "zoneinfo" else ""))
     if sp.get("groups"):
         out.append("groups_" + sp["groups"])
+    if sp.get("priv") is False:
+        out.append("nopriv")
     return "+".join(out) or "default"
 
 
 def is_modelled(sp):
-    return not (sp["note"] or sp["trunc"] or sp["tz"] is not None or sp["enum"] or sp.get("groups") or sp.get("tzshape"))
+    return not (sp["note"] or sp["trunc"] or sp["tz"] is not None or sp["enum"] or sp.get("groups") or sp.get("tzshape") or sp.get("priv") is False)
 
 
 def kwargs_of(sp):
@@ -148,6 +162,8 @@ def kwargs_of(sp):
             kw["default_timezone"] = zoneinfo.ZoneInfo(ZONES[sp["tz"]])
     if sp["enum"]:
         kw["use_enum_value"] = True
+    if sp.get("priv") is False:      # only the source-tie search asks for it (the models of the streams fix ignore_private_variables=True)
+        kw["ignore_private_variables"] = False
     if sp.get("groups"):
         from deepdiff import DeepDiff
         kw["ignore_type_in_groups"] = {"numbers": [DeepDiff.numbers], "strings": [DeepDiff.strings], "intfloat": [(int, float)],
@@ -2148,6 +2164,164 @@ def replay_witnesses(ctx):
 
 
 # --------------------------------------------------------------------------
+# source tie `hashparams`: search for a concrete input when the tie is broken
+# --------------------------------------------------------------------------
+TIE_JOBS = []         # (family, t1, t2, spec, rep, want_model): found by on_source_tie_break, evaluated by run() like any generated case
+# candidate ITEMS of a list / set: pairs that differ in exactly one aspect an option ignores, repetitions, private keys
+TIE_VALUES = [2, 3, 2.5, 3.5, "a", "A", "ab", "Ab", b"a", b"ab", None, [2], [2, 2], [2, 3], [3, 2], ["a"], ["A"], ["a", "a"], [2.5], [3.5],
+              (2,), (2, 2), {"k": 2}, {"k": 3}, {"k": "a"}, {"k": "A"}, {"k": 2, "__p": 1}, {"k": 2, "__p": 2}, {"K": 2}, [[2, 2]], [[2]], {"k": [2, 2]}, {"k": [2]}]
+TIE_LIST_ATOMS = [2, "a", 2.5]
+NOPAIR = {"cutoff_intersection_for_pairs": 0}
+
+
+def _tie_universe():
+    """option records (F, priv, rep), the simplest first: no option, single options, pairs, ..."""
+    U = []
+    for case in (False, True):
+        for strty in (False, True):
+            for numty in (False, True):
+                for sig in (None, 0, 2):
+                    for priv in (True, False):
+                        for rep in (False, True):
+                            U.append((mk(case=case, strty=strty, numty=numty, sig=sig), priv, rep))
+    U.sort(key=lambda u: (sum(1 for k in MODELLED if u[0][k] not in (False, None)) + (not u[1]), u[2]))
+    return U
+
+
+def _tie_lists():
+    out = [[]]
+    for n in (1, 2, 3):
+        import itertools
+        out += [list(t) for t in itertools.product(TIE_LIST_ATOMS, repeat=n)]
+    return out
+
+
+def _tie_coq(ctx, name, body):
+    """compile one differencing file against the REGENERATED model of this run; returns the framed blocks or None"""
+    import os
+    import re
+    gen_dir = os.path.join(ctx.scratch, "srctie")
+    fn = os.path.join(gen_dir, name + ".v")
+    with open(fn, "w") as f:
+        f.write("From Coq Require Import List String ZArith NArith Bool.\nImport ListNotations.\n"
+                "From DD Require Import Base.Sx Base.PyStr Base.Value Hash.HashModel Options.OptModel HashDiff.HashDiffSrcPrims HashDiff.HashDiffSrcShow.\n"
+                "From DDGen Require Import HashDiffGen.\nLocal Open Scope Z_scope.\n" + body)
+    rc, out = core.sh(["coqc", "-Q", core.THEORIES, "DD", "-Q", gen_dir, "DDGen", fn], timeout=900, cwd=gen_dir)
+    if rc != 0:
+        return None, out[-800:]
+    return [b.replace('""', '"') for b in re.findall(r'"BEGIN\n(.*?)END"', out, re.S)], None
+
+
+def on_source_tie_break(ctx, name, rec):
+    """core.source_tie_step calls this when the tie is not intact.  The generated and the hand definitions are
+    differenced INSIDE Coq on (a) every option record of _tie_universe (96: all subsets of the four modelled options x
+    ignore_private_variables x report_repetition) and, on the records that differ, every pair of TIE_VALUES as items;
+    (b) every list of <= 3 items over three atoms (table construction) and every pair of them (the part of
+    _diff_iterable_with_deephash before the pairing heuristic).  Each difference becomes concrete DeepDiff / DeepHash inputs in
+    TIE_JOBS, which run() feeds to the ordinary direct oracle and correspondence comparison."""
+    import os
+    out = {"tie_status": rec.get("status")}
+    gen_vo = os.path.join(ctx.scratch, "srctie", "HashDiffGen.vo")
+    if rec.get("status") in ("translator-rejected", "generated-model-does-not-compile") or not os.path.exists(gen_vo):
+        out["searched"] = ("nothing inside Coq: no generated model to evaluate (%s); the model stream of this run uses its thorough-size budget" % rec.get("status"))
+        return out
+    rc, blog = core.build_coq(target="theories/HashDiff/HashDiffSrcShow.vo")
+    if rc != 0:
+        out["searched"] = "nothing: HashDiffSrcShow.v does not build: " + blog[-300:]
+        return out
+    U = _tie_universe()
+    vals = [v for v in TIE_VALUES if in_universe(v)]
+    lists = _tie_lists()
+    body_a = ("Definition U : list optrec := [\n%s].\nDefinition VALS : list value := [\n%s].\n"
+              "Eval vm_compute in framed (show_nats (forwarding_diffs g_deephash_params U)).\n"
+              "Eval vm_compute in framed (show_nats (forwarding_none g_deephash_params U)).\n"
+              "Eval vm_compute in framed (String.concat \"\" (map (fun k => (\"#\" ++ show_nat k ++ nl ++ show_nat_pairs (firstn 6 (verdict_diffs g_deephash_params (nth k U (no_opts, true, false)) VALS)))%%string) "
+              "(firstn 16 (forwarding_diffs g_deephash_params U)))).\n"
+              % (";\n".join("(%s, %s, %s)" % (coq_opts(sp), core.coq_bool(priv), core.coq_bool(rep)) for sp, priv, rep in U),
+                 ";\n".join(V.to_coq(v) for v in vals)))
+    body_b = ("Definition L : list (list value) := [\n%s].\n"
+              "Eval vm_compute in framed (show_nats (table_diffs g__create_hashtable L)).\n"
+              "Eval vm_compute in framed (show_nat_pairs (firstn 40 (prefix_diffs g__diff_iterable_with_deephash false L))).\n"
+              "Eval vm_compute in framed (show_nat_pairs (firstn 40 (prefix_diffs g__diff_iterable_with_deephash true L))).\n"
+              % ";\n".join("[%s]" % "; ".join(V.to_coq(x) for x in l) for l in lists))
+    from concurrent.futures import ThreadPoolExecutor
+    with ThreadPoolExecutor(max_workers=2) as ex:
+        (ra, ea), (rb, eb) = ex.map(lambda a: _tie_coq(ctx, *a), [("search_forwarding", body_a), ("search_table", body_b)])
+    out["option_records_enumerated"] = len(U)
+    out["candidate_items"] = len(vals)
+    out["lists_enumerated"] = len(lists)
+    found = []
+
+    def add(fam, t1, t2, sp, rep):
+        TIE_JOBS.append((fam, t1, t2, sp, rep, True))
+    if ra is None or len(ra) != 3:
+        out["forwarding_search"] = "the differencing file did not compile against the regenerated model: " + str(ea)
+    else:
+        differing = [int(x) for x in ra[0].split()]
+        none_at = set(int(x) for x in ra[1].split())
+        out["forwarding_differs_on_option_records"] = len(differing)
+        out["forwarding_yields_no_option_record_on"] = len(none_at)
+        cur = None
+        per = {}
+        for line in ra[2].splitlines():
+            if line.startswith("#"):
+                cur = int(line[1:])
+                per[cur] = []
+            elif line.strip() and cur is not None:
+                i, j = (int(x) for x in line.split())
+                per[cur].append((i, j))
+        for k in differing[:16]:
+            sp, priv, rep = U[k]
+            spk = dict(sp) if priv else dict(sp, priv=False)
+            if k in none_at:
+                # the generated __init__ chain raises / yields an ill-typed option: any pair under these options shows it
+                found.append({"options": name_of(spk), "rep": rep, "generated": "no option record (exception / ill-typed option)"})
+                add("source_tie:forwarding", [2, "a"], ["a", 2], spk, rep)
+                continue
+            for i, j in per.get(k, [])[:6]:
+                a, b = vals[i], vals[j]
+                found.append({"options": name_of(spk), "rep": rep, "items": [lit(a), lit(b)],
+                              "what": "the generated and the hand option record disagree on whether these two items hash alike"})
+                add("source_tie:forwarding", [a], [b], dict(spk, knobs=NOPAIR), rep)
+                add("source_tie:forwarding", [a], [b], spk, rep)
+                add("source_tie:forwarding", [a, 7], [7, b], dict(spk, knobs=NOPAIR), rep)
+                if all(x is None or isinstance(x, (int, float, str, bytes)) for x in (a, b)) and a != b:
+                    add("source_tie:forwarding", {a}, {b}, spk, rep)
+        if differing and not found:
+            out["forwarding_note"] = "option records differ but no pair of candidate items is hashed differently by them"
+    if rb is None or len(rb) != 3:
+        out["table_search"] = "the differencing file did not compile against the regenerated model: " + str(eb)
+    else:
+        tl = [int(x) for x in rb[0].split()]
+        out["table_differs_on_lists"] = len(tl)
+        for k in tl[:6]:
+            xs = lists[k]
+            found.append({"list": lit(xs), "what": "the generated table construction differs from dedup / indexes_of / first item"})
+            seen_, ded = set(), []
+            for x in xs:
+                if x not in seen_:
+                    seen_.add(x)
+                    ded.append(x)
+            for ys in (ded, xs + [9], list(reversed(xs)), xs[:-1]):
+                for rep in (False, True):
+                    add("source_tie:table", xs, ys, mk(), rep)
+                    add("source_tie:table", ys, xs, mk(), rep)
+        for rep, blk in ((False, rb[1]), (True, rb[2])):
+            prs = [tuple(int(x) for x in ln.split()) for ln in blk.splitlines() if ln.strip()]
+            out["prefix_differs_on_pairs(rep=%s)" % rep] = len(prs)
+            for i, j in prs[:8]:
+                found.append({"t1": lit(lists[i]), "t2": lit(lists[j]), "rep": rep,
+                              "what": "hash sets / reduced hashtables before the pairing heuristic differ from the hand model"})
+                add("source_tie:prefix", lists[i], lists[j], mk(), rep)
+                add("source_tie:prefix", lists[i], lists[j], dict(mk(), knobs=NOPAIR), rep)
+    out["first_differences"] = found[:8]
+    out["inputs_fed_to_the_ordinary_check"] = len(TIE_JOBS)
+    if not TIE_JOBS:
+        out["searched"] = "generated and hand definitions agree on everything enumerated (a translator / proof artefact, or a difference outside the enumeration)"
+    return out
+
+
+# --------------------------------------------------------------------------
 # run
 # --------------------------------------------------------------------------
 
@@ -2163,9 +2337,16 @@ def run(ctx):
         t_last[0] = now
     replay_witnesses(ctx)
     mspecs = modelled_specs(rng)
-    n_model = 240 if ctx.thorough else 34          # pairs per modelled option set and family mix
+    # a broken source tie escalates the stream that exercises the translated fragment (lists / sets under the forwarded options)
+    tie_broken = ctx.tie_broken("hashparams")
+    n_model = 240 if (ctx.thorough or tie_broken) else 34          # pairs per modelled option set and family mix
     n_rich = 400 if ctx.thorough else 60
     jobs = []
+    for job in TIE_JOBS:      # inputs on which the regenerated model differs from the hand model: judged like any generated case
+        jobs.append(job)
+    if tie_broken:
+        ctx.note("source_tie_escalation", "hashparams not intact: model stream at thorough size (%d pairs per option set); %d input(s) from the "
+                                          "generated-vs-hand differencing inside Coq" % (n_model, len(TIE_JOBS)))
     for t1, t2, sp in FIXED:
         for rep in (False, True):
             jobs.append(("fixed", t1, t2, sp, rep, True))
